@@ -37,7 +37,9 @@ func runC12(p *eng.Prog, r *eng.Report, tier string) {
 	c.r.Floor("C12.3", "narrowing conversions of parsed numbers in the stream packages", nTr, 2)
 	c12Send(c)
 	c11ElementIsCharData(c, "C12.12")
+	jidCore(c, "C12.14")
 	c12HeaderAddressesWhole(c, "C12.13")
+	c12OriginHandedOnWhole(c, "C12.15")
 	// C12.11 a stream error with an application condition (or any unknown
 	// child) is still decoded as the stream error: the hand-written token loop
 	// of stream.Error consumes every child it meets
@@ -918,4 +920,34 @@ func c12HeaderAddressesWhole(c *cx, id string) {
 		}
 	}
 	c.r.Floor(id, "address operands of stream.Send in the negotiator", n, 4)
+}
+
+// c12OriginHandedOnWhole (C12.15): the constructors outside the root package
+// (websocket, component, dial) hand the caller's address to xmpp.NewSession /
+// ReceiveSession as the origin without dropping parts of it: the origin
+// operand is an identifier (the parameter, or the parameter reassigned as a
+// whole), never X.Bare() / X.Domain() of it - the initiator's header then
+// lacks its own address and bind requests no resource. (The LOCATION operand
+// is the domain by design.)
+func c12OriginHandedOnWhole(c *cx, id string) {
+	n := 0
+	for _, f := range c.allFns() {
+		if f.Body == nil || strings.HasPrefix(f.Short, "xmpp.") {
+			continue
+		}
+		for _, cl := range f.AllCalls() {
+			cid := f.CalleeID(cl)
+			if cid != "xmpp.NewSession" { // ReceiveSession takes no addresses
+				continue
+			}
+			if len(cl.Args) < 3 {
+				continue
+			}
+			n++
+			origin := ast.Unparen(cl.Args[2])
+			_, isID := origin.(*ast.Ident)
+			c.r.Check(id, f, "origin operand of "+cid, "K: the origin address handed to the session is the caller's address as a whole", origin.Pos(), isID, "the origin is "+types.ExprString(origin)+": parts of the caller's address are dropped before the stream is opened")
+		}
+	}
+	c.r.Floor(id, "session constructors outside the root package", n, 2)
 }
